@@ -811,6 +811,10 @@ class Thread(object):
         s = _cur(self)
         if s is None or s.me() is None:
             return
+        if self._rec is None:
+            raise RuntimeError("cannot join thread before it is started")
+        if s.me() is self._rec:
+            raise RuntimeError("cannot join current thread")      # (as threading.Thread.join does)
         s.point("join", self, timeout)
 
     def is_alive(self):
